@@ -36,7 +36,8 @@ tvars == <<vars, l>>
 
 SetOf(sq) == {sq[j] : j \in DOMAIN sq}
 \* constants of Cluster.tla, taken from the file (cfg: Reqs <- TReqs, ...)
-TReqs == UNION {{<<Recs[j].s, x[1], x[2], x[3]>> : x \in SetOf(Recs[j].reqs)} : j \in {k \in DOMAIN Recs : Recs[k].ev = "Begin"}}
+\* the first record lists the requests <<session, rid, priority, procs>> of all sessions
+TReqs == {<<x[1], x[2], x[3], x[4]>> : x \in SetOf(Recs[1].reqs)}
 TProcs == [r \in TReqs |-> r[4]]
 TPrio == [r \in TReqs |-> r[3]]
 
